@@ -91,6 +91,9 @@ HllSketchImpl<A>* HllSketchImplFactory<A>::deserialize(std::istream& is, const A
 
 template<typename A>
 HllSketchImpl<A>* HllSketchImplFactory<A>::deserialize(const void* bytes, size_t len, const A& allocator) {
+  if (len < hll_constants::EMPTY_SKETCH_SIZE_BYTES) {
+    throw std::out_of_range("Input data length insufficient to hold HLL sketch");
+  }
   // read current mode directly
   const uint8_t preInts = static_cast<const uint8_t*>(bytes)[0];
   if (preInts == hll_constants::HLL_PREINTS) {
